@@ -60,19 +60,19 @@ def run(ctx):
     inv2 = "INVARIANTS Inv_C20b Inv_TwinFinal Inv_C20a"
     if not q:
         # ---- R1 (thorough): deeper exhaustive runs, no export; -coverage as vacuity guard
-        cfg(sd, "r1.cfg", spec="BoundedSpec", univ="MCUniverses", rounds="1, 2, 3, 4, 15, 20", depth=5, nota=1,
+        cfg(sd, "r1.cfg", spec="BoundedSpec", univ="MCUniverses", rounds="1, 2, 3, 15", depth=5, nota=0,
             rest="VIEW cvars\n" + inv1)
         c = ctx.tlc(sd, "MC_ForkDetector", "r1.cfg", timeout=3000, coverage=True)
         if c.ok and c.coverage_zero:
             ctx.broken.append("vacuity: never evaluated in r1: %s" % sorted(set(c.coverage_zero))[:8])
-        cfg(sd, "t1.cfg", spec="BoundedSpec", univ="MCUniverses", maxlist=4, rounds="1, 2, 3, 15", depth=5, groups=2,
+        cfg(sd, "t1.cfg", spec="BoundedSpec", univ="MCUniverses", maxlist=4, rounds="2, 15", depth=5, groups=2,
             rest="VIEW cvars\n" + inv2)
         ctx.tlc(sd, "MC_ForkTwin", "t1.cfg", timeout=3000)
     lap("R1 deep")
     # ---- R1 + R2a: exhaustive within the depth bound with all invariants; one behaviour per transition of the abstract
     #      state graph (up to EmitDepth) is exported and replayed on the real detectors
     cfg(sd, "gen.cfg", spec="GenSpec", log="LogAppend", univ="MCUniversesQuick" if q else "MCUniverses",
-        rounds="2, 15" if q else "1, 2, 3, 15", depth=4, emit=3 if q else 4, nota=0,
+        rounds="2, 15" if q else "2, 3, 15", depth=4, emit=3 if q else 4, nota=0,
         rest="VIEW cvars\nACTION_CONSTRAINT EmitEdge\n" + inv1)
     beh = ctx.path("edges.ndjson")
     g = ctx.tlc(sd, "MC_ForkDetector", "gen.cfg", timeout=3000, behaviours_out=beh)
@@ -89,7 +89,7 @@ def run(ctx):
     # ---- R1 + R2b: the twin product (C20b for every permutation of <= 3 competing headers and every continuation
     #      within the bound); behaviours that contain a permuted group are replayed on two real detectors each
     cfg(sd, "tgen.cfg", spec="GenSpec", log="LogAppend", univ="MCUniversesQuick" if q else "MCUniverses", maxlist=4,
-        rounds="2, 15" if q else "1, 2, 15", depth=4, emit=3 if q else 4, groups=1,
+        rounds="2, 15", depth=3 if q else 4, emit=3 if q else 4, groups=1,
         rest="VIEW cvars\nACTION_CONSTRAINT EmitTwinEdge\n" + inv2)
     tbeh = ctx.path("twins.ndjson")
     ctx.tlc(sd, "MC_ForkTwin", "tgen.cfg", timeout=3000, behaviours_out=tbeh)
@@ -98,6 +98,22 @@ def run(ctx):
             twin_states_with_fork=int(t.stats.get("twin_states_with_fork", 0)))
     if t.stats and int(t.stats.get("twin_states_with_fork", 0)) == 0:
         ctx.broken.append("vacuous: no twin behaviour reached a state in which a fork is reported")
+    # ---- named deviation "black-list-order": a competitor whose parent is another (invalid, black-listed) member of the
+    #      group is stored only when it arrives before that parent.  R1 on the universe that contains such a pair: the strict
+    #      Inv_C20b must FAIL (TLC runs with -continue so that the export is complete), Inv_C20b_ModuloBlackList must hold;
+    #      the twins are replayed: the real detectors reproduce it -> known finding with its own signature
+    cfg(sd, "dgen.cfg", spec="GenSpec", log="LogAppend", univ="MCUniversesDefect", maxlist=4, rounds="2, 15", depth=3,
+        emit=3, groups=1, rest="VIEW cvars\nACTION_CONSTRAINT EmitTwinEdge\nINVARIANTS Inv_C20b_ModuloBlackList Inv_C20a Inv_C20b")
+    dbeh = ctx.path("dtwins.ndjson")
+    dr = ctx.tlc(sd, "MC_ForkTwin", "dgen.cfg", timeout=1200, behaviours_out=dbeh, count=False, extra=["-continue"],
+                 allow=("invariant:Inv_C20b",))
+    if dr.error != "invariant:Inv_C20b":
+        ctx.broken.append("the black-list-order deviation is modelled but TLC did not find the Inv_C20b counterexample (%s)" % dr.error)
+    else:
+        ctx.cov(r1_counterexample_black_list_order="Inv_C20b violated on MCUniversesDefect (expected: deviation of the code "
+                                                   "as it is); Inv_C20b_ModuloBlackList and Inv_C20a hold")
+    td = ctx.vh(exe, ["twin", dbeh], timeout=600, count_samples=False)
+    ctx.cov(traces_validated_against_impl=int(td.stats.get("behaviours", 0)), evaluations=int(td.stats.get("steps", 0)))
     lap("twins+replay")
     # ---- R2c: long simulated behaviours over the larger universes (single and twin)
     cfg(sd, "sim.cfg", spec="SimSpec", log="LogAppend", univ="MCUniversesSim", rounds="1, 2, 3, 4, 5, 6, 15, 20, 40",
